@@ -69,6 +69,135 @@ K_SEL_STRIDED = "C14/spelling/non-contiguous-selection-mask-rejected"
 
 
 # ---------------------------------------------------------------- translator (Gen)
+def _pyx_functions(text):
+    """{name: (header, [(indent, statement)])} of a .pyx: comments / docstrings / blank lines dropped,
+    bracketed continuation lines joined, inner whitespace collapsed."""
+    lines = []
+    in_doc = None
+    for raw in text.splitlines():
+        s = raw.rstrip()
+        st = s.strip()
+        if in_doc:
+            if in_doc in st:
+                in_doc = None
+            continue
+        m = re.match(r'^[rRuUbB]{0,2}("""|\'\'\')', st)
+        if m:
+            if m.group(1) not in st[m.end():]:
+                in_doc = m.group(1)
+            continue
+        if not st or st.startswith("#"):
+            continue
+        # trailing comment
+        if "#" in s:
+            i = s.find("#")
+            if s[:i].count('"') % 2 == 0 and s[:i].count("'") % 2 == 0:
+                s = s[:i].rstrip()
+                if not s.strip():
+                    continue
+        lines.append(s)
+    # join continuations
+    stmts = []
+    buf, depth, ind = "", 0, 0
+    for s in lines:
+        if not buf:
+            ind = len(s) - len(s.lstrip())
+        buf = (buf + " " + s.strip()) if buf else s.strip()
+        depth = sum(buf.count(c) for c in "([{") - sum(buf.count(c) for c in ")]}")
+        if depth <= 0 and not buf.endswith("\\"):
+            stmts.append((ind, re.sub(r"\s+", " ", buf.replace("\\", " ")).strip()))
+            buf = ""
+    fns = {}
+    i = 0
+    while i < len(stmts):
+        ind, s = stmts[i]
+        m = re.match(r"(?:def|cdef|cpdef)\s+(?:inline\s+)?(?:[\w\.\[\]:, ]+?\s+)?(\w+)\s*\(", s)
+        if m and s.endswith(":") and not s.startswith("cdef class"):
+            name = m.group(1)
+            body = []
+            j = i + 1
+            while j < len(stmts) and stmts[j][0] > ind:
+                body.append((stmts[j][0] - ind, stmts[j][1]))
+                j += 1
+            fns.setdefault(name, []).append((s, body))
+            i = j
+        else:
+            i += 1
+    return fns
+
+
+_STR_LIT = re.compile(r"""[fFrRbBuU]{0,2}("([^"\\]|\\.)*"|'([^'\\]|\\.)*')""")
+
+PYX_FUNCS = ["__cinit__", "create_adjacency_matrix", "get_atoms", "get_atoms_in_cells", "_get_atoms_in_cells",
+             "_find_adjacent_atoms", "_post_process", "_get_cell_index", "_as_mask", "_check_coord", "_empty_result",
+             "_prepare_vectorization", "squared_distance"]
+BOX_FUNCS = ["repeat_box_coord", "move_inside_box", "coord_to_fraction", "fraction_to_coord", "is_orthogonal"]
+
+
+def _lean_str(x):
+    return '"' + x.replace("\\", "\\\\").replace('"', '\\"') + '"'
+
+
+def _source_functions():
+    """(lean identifier, header, [(indent, statement)]) for every modelled function of celllist.pyx (statement text,
+    string literals replaced by S, comments/docstrings/blank lines dropped) and of box.py (ast.unparse per statement)."""
+    import ast
+    from common import paths
+    out = []
+    fns = _pyx_functions(open(os.path.join(paths.SRC, "biotite/structure/celllist.pyx")).read())
+    for name in PYX_FUNCS:
+        cands = fns.get(name)
+        if not cands:
+            raise ValueError(f"function {name} not found in celllist.pyx")
+        if name == "_check_coord":      # the module-level validator, not the cdef bounds helper of the class
+            cands = [c for c in cands if c[0].startswith("def _check_coord(coord)")]
+            if not cands:
+                raise ValueError("module-level _check_coord(coord) not found in celllist.pyx")
+        header, body = cands[0]
+        ident = "pyx_" + (name.strip("_") if name.startswith("__") else ("priv" + name if name.startswith("_") else name))
+        out.append((ident, _STR_LIT.sub("S", header),
+                    [(ind, _STR_LIT.sub("S", st)) for ind, st in body]))
+    tree = ast.parse(open(os.path.join(paths.SRC, "biotite/structure/box.py")).read())
+
+    class NoStr(ast.NodeTransformer):
+        def visit_Constant(self, node):
+            return ast.copy_location(ast.Name(id="S", ctx=ast.Load()), node) if isinstance(node.value, str) else node
+
+        def visit_JoinedStr(self, node):
+            return ast.copy_location(ast.Name(id="S", ctx=ast.Load()), node)
+    found = {n.name: n for n in tree.body if isinstance(n, ast.FunctionDef)}
+    for name in BOX_FUNCS:
+        fn = found.get(name)
+        if fn is None:
+            raise ValueError(f"function {name} not found in box.py")
+        body = fn.body[1:] if ast.get_docstring(fn) else fn.body
+        stmts = []
+
+        def walk(nodes, ind):
+            for nd in nodes:
+                nd = NoStr().visit(nd)
+                if isinstance(nd, (ast.For, ast.If, ast.While)):
+                    head = ast.unparse(nd).split("\n")[0]
+                    stmts.append((ind, head))
+                    walk(nd.body, ind + 4)
+                    if nd.orelse:
+                        stmts.append((ind, "else:"))
+                        walk(nd.orelse, ind + 4)
+                else:
+                    stmts.append((ind, ast.unparse(nd).replace("\n", " ")))
+        walk(body, 4)
+        out.append(("box_" + name, f"def {name}({ast.unparse(fn.args)}):", stmts))
+    return out
+
+
+def _source_lean(indent_expected=False):
+    """Lean definitions `Gen.C14.<id> : Fn` (and, for Props, the same literals as expected values)."""
+    lines = []
+    for ident, header, stmts in _source_functions():
+        lines.append((ident, "⟨" + _lean_str(header) + ", [" + ", ".join(f"({i}, {_lean_str(t)})" for i, t in stmts) + "]⟩"))
+    return lines
+
+
 def gen_lean():
     from common import paths
     src = open(os.path.join(paths.SRC, "biotite/structure/celllist.pyx")).read()
@@ -149,7 +278,15 @@ def gen_lean():
         f"def bufLen : Nat × Nat × Nat := ({buf[0]}, {buf[1]}, {buf[2]})",
         "/-- default `amount` of `repeat_box_coord` (images per axis = 2*amount+1) -/",
         f"def repeatAmount : Nat := {amount}",
-        "end BiotiteModel.Gen.C14", ""]
+        "/-- A function of the source: header (with the default argument values) and its statements",
+        "(indentation, text; comments, docstrings, blank lines dropped; string literals replaced by S). -/",
+        "structure Fn where",
+        "  header : String",
+        "  body : List (Nat × String)",
+        "  deriving DecidableEq, Repr"]
+    for ident, lit in _source_lean():
+        body.append(f"def {ident} : Fn := {lit}")
+    body += ["end BiotiteModel.Gen.C14", ""]
     return {"BiotiteModel/Gen/C14.lean": "\n".join(body)}
 
 
